@@ -768,6 +768,15 @@ impl RADAU {
                     reject = false;
                 }
 
+                // xend has been reached up to the rounding of the accumulated steps: a remaining
+                // sliver of a few ulp is not a step to take (it would only trip the step size guard)
+                let to_end = (xend - x).abs();
+                if to_end == 0.0 || to_end < 4.0 * Float::EPSILON * x.abs().max(xend.abs()) {
+                    h = hnew;
+                    status = Status::Success;
+                    break 'main;
+                }
+
                 // Sophisticated step size control
                 if (x + hnew / quot1 - xend) * posneg >= 0.0 {
                     h = xend - x;
